@@ -184,38 +184,38 @@ pub fn check_frame(data: &[u8]) -> Result<u32, Failure> {
         match parser::parse(data) {
             Ok(PhyPayload::Data(d)) => {
                 oks += 1;
-                sink += d.fhdr().fcnt() as u64;
+                sink = sink.wrapping_add(d.fhdr().fcnt() as u64);
             }
             Ok(PhyPayload::JoinRequest(j)) => {
                 oks += 1;
-                sink += j.dev_nonce().value() as u64;
+                sink = sink.wrapping_add(j.dev_nonce().value() as u64);
             }
             Ok(PhyPayload::JoinAccept(j)) => {
                 oks += 1;
-                sink += j.as_bytes().len() as u64;
+                sink = sink.wrapping_add(j.as_bytes().len() as u64);
             }
-            Err(e) => sink += e.to_string().len() as u64,
+            Err(e) => sink = sink.wrapping_add(e.to_string().len() as u64),
         }
         if let Ok(p) = EncryptedDataPayload::parse(data) {
             oks += 1;
             let h = p.fhdr();
             let fc = h.fctrl();
-            sink += h.dev_addr().value() as u64 + h.mc_addr().value() as u64 + h.fcnt() as u64 + h.f_opts().len() as u64 + fc.f_opts_len() as u64 + fc.raw_value() as u64;
-            sink += (fc.adr() as u64) + (fc.adr_ack_req() as u64) + (fc.ack() as u64) + (fc.f_pending() as u64);
-            sink += p.f_port().unwrap_or(0) as u64 + p.mic().0[0] as u64 + p.as_bytes().len() as u64 + p.is_uplink() as u64 + p.is_confirmed() as u64 + p.frame_type() as u64;
-            sink += p.validate_mic(&k1, 0) as u64 + p.validate_mic(&k1, u32::MAX) as u64;
+            sink = sink.wrapping_add(h.dev_addr().value() as u64 + h.mc_addr().value() as u64 + h.fcnt() as u64 + h.f_opts().len() as u64 + fc.f_opts_len() as u64 + fc.raw_value() as u64);
+            sink = sink.wrapping_add((fc.adr() as u64) + (fc.adr_ack_req() as u64) + (fc.ack() as u64) + (fc.f_pending() as u64));
+            sink = sink.wrapping_add(p.f_port().unwrap_or(0) as u64 + p.mic().0[0] as u64 + p.as_bytes().len() as u64 + p.is_uplink() as u64 + p.is_confirmed() as u64 + p.frame_type() as u64);
+            sink = sink.wrapping_add(p.validate_mic(&k1, 0) as u64 + p.validate_mic(&k1, u32::MAX) as u64);
             if h.f_opts().len() != fc.f_opts_len() {
                 return Err(("fopts-len", "f_opts().len() != fctrl().f_opts_len()".to_string()));
             }
             // MAC commands in FOpts through both MAC sets
             for c in parse_downlink_mac_commands(h.f_opts()).take(20) {
                 if let Ok(c) = c {
-                    sink += visit_down_mac(&c).1.len() as u64;
+                    sink = sink.wrapping_add(visit_down_mac(&c).1.len() as u64);
                 }
             }
             for c in parse_uplink_mac_commands(h.f_opts()).take(20) {
                 if let Ok(c) = c {
-                    sink += visit_up_mac(&c).1.len() as u64;
+                    sink = sink.wrapping_add(visit_up_mac(&c).1.len() as u64);
                 }
             }
         }
@@ -223,13 +223,13 @@ pub fn check_frame(data: &[u8]) -> Result<u32, Failure> {
             let mut b = data.to_vec();
             if let Ok(d) = DecryptedDataPayload::decrypt_in_place(&mut b, nk, ak, 0xFFFF_0000) {
                 oks += 1;
-                sink += d.fhdr().f_opts().len() as u64 + d.f_port().unwrap_or(0) as u64 + d.mic().0[3] as u64 + d.as_bytes().len() as u64 + d.frame_type() as u64 + d.is_uplink() as u64 + d.is_confirmed() as u64;
+                sink = sink.wrapping_add(d.fhdr().f_opts().len() as u64 + d.f_port().unwrap_or(0) as u64 + d.mic().0[3] as u64 + d.as_bytes().len() as u64 + d.frame_type() as u64 + d.is_uplink() as u64 + d.is_confirmed() as u64);
                 match d.frm_payload() {
-                    FrmPayload::Data(x) => sink += x.len() as u64,
+                    FrmPayload::Data(x) => sink = sink.wrapping_add(x.len() as u64),
                     FrmPayload::MacCommands(x) => {
                         for c in parse_downlink_mac_commands(x).take(300) {
                             if let Ok(c) = c {
-                                sink += visit_down_mac(&c).1.len() as u64;
+                                sink = sink.wrapping_add(visit_down_mac(&c).1.len() as u64);
                             }
                         }
                     }
@@ -240,27 +240,27 @@ pub fn check_frame(data: &[u8]) -> Result<u32, Failure> {
         let mut b = data.to_vec();
         if let Ok(d) = DecryptedDataPayload::check_mic_and_decrypt_in_place(&mut b, &k1, Some(&k2), 7) {
             oks += 1;
-            sink += d.as_bytes().len() as u64;
+            sink = sink.wrapping_add(d.as_bytes().len() as u64);
         }
         if let Ok(j) = JoinRequestPayload::parse(data) {
             oks += 1;
-            sink += j.join_eui().value() ^ j.dev_eui().value() ^ j.dev_nonce().value() as u64 ^ j.mic().0[0] as u64 ^ j.validate_mic(&k1) as u64 ^ j.as_bytes().len() as u64;
+            sink = sink.wrapping_add(j.join_eui().value() ^ j.dev_eui().value() ^ j.dev_nonce().value() as u64 ^ j.mic().0[0] as u64 ^ j.validate_mic(&k1) as u64 ^ j.as_bytes().len() as u64);
         }
         if let Ok(j) = EncryptedJoinAcceptPayload::parse(data) {
             oks += 1;
-            sink += j.as_bytes().len() as u64;
+            sink = sink.wrapping_add(j.as_bytes().len() as u64);
         }
         let mut b = data.to_vec();
         if let Ok(j) = DecryptedJoinAcceptPayload::decrypt_in_place(&mut b, &k1) {
             oks += 1;
-            sink += j.join_nonce().value() as u64 + j.net_id().value() as u64 + j.dev_addr().value() as u64 + j.dl_settings().raw_value() as u64 + j.rx_delay() as u64 + j.mic().0[1] as u64 + j.as_bytes().len() as u64;
-            sink += j.validate_mic(&k1) as u64;
-            sink += match j.c_f_list() {
+            sink = sink.wrapping_add(j.join_nonce().value() as u64 + j.net_id().value() as u64 + j.dev_addr().value() as u64 + j.dl_settings().raw_value() as u64 + j.rx_delay() as u64 + j.mic().0[1] as u64 + j.as_bytes().len() as u64);
+            sink = sink.wrapping_add(j.validate_mic(&k1) as u64);
+            sink = sink.wrapping_add(match j.c_f_list() {
                 Some(parser::CfList::DynamicChannel(f)) => f.iter().map(|x| x.hz() as u64).sum::<u64>(),
                 Some(parser::CfList::FixedChannel(m)) => m.as_ref().len() as u64,
                 None => 0,
-            };
-            sink += j.derive_nwkskey(DevNonce::from_value(1), &k1).inner().0[0] as u64 + j.derive_appskey(DevNonce::from_value(1), &k1).inner().0[0] as u64;
+            });
+            sink = sink.wrapping_add(j.derive_nwkskey(DevNonce::from_value(1), &k1).inner().0[0] as u64 + j.derive_appskey(DevNonce::from_value(1), &k1).inner().0[0] as u64);
         }
         let mut b = data.to_vec();
         if DecryptedJoinAcceptPayload::check_mic_and_decrypt_in_place(&mut b, &k2).is_ok() {
@@ -281,7 +281,7 @@ pub fn replay(case: &Value, _kf: &KnownFindings) -> Result<(), Failure> {
     match case["kind"].as_str() {
         Some("stream") => check_stream(Set::from_name(case["set"].as_str().unwrap_or("")).unwrap_or(Set::DownMac), &data).map(|_| ()),
         Some("frame") => check_frame(&data).map(|_| ()),
-        Some("all") => {
+        Some("all") | Some("fuzz_raw") => {
             for s in SETS {
                 check_stream(s, &data)?;
             }
